@@ -186,7 +186,13 @@ impl Accept {
                         idx,
                     });
 
-                    self.avail.set_available(idx, true);
+                    // The notification can come from a worker that has died and whose handle has
+                    // already been removed (its connections finish while it is torn down). Marking
+                    // an index without a handle as available would make `accept_one` search for it
+                    // forever, or index into an empty handle list.
+                    if self.handles.iter().any(|handle| handle.idx() == idx) {
+                        self.avail.set_available(idx, true);
+                    }
 
                     if !self.paused {
                         self.accept_all(sockets);
